@@ -89,10 +89,15 @@ def generate(seed, run, tier):
     str_ok = all(len(t) == 1 for t in alphabet)
     forms = ["list", "tuple", "gen"] + (["str"] if str_ok else [])
     forms = [f for f in forms if crng.random() < 0.7] or ["list"]
+    # observation schedule (swarm): a full sweep after every mutation would
+    # always be the first traversal after a write and could mask state kept
+    # between traversals; some runs observe less, and not by iterating
+    sweep = weighted_choice(crng, [({"iter": True, "stride": 1}, 55), ({"iter": False, "stride": 1}, 20), ({"iter": False, "stride": 3}, 15), ({"iter": True, "stride": 2}, 10)])
     config = {
         "alphabet": alphabet,
         "depth": depth,
         "fault_class": bool(enabled),
+        "sweep": sweep,
     }
 
     unique_counter = [0]
@@ -178,6 +183,10 @@ def generate(seed, run, tier):
             elif wrng.random() < 0.25:
                 events.append({"op": "iter_drain", "it": it, "c": it})
                 del live[it]
+            elif "iter_cancel" in enabled and frng.random() < 0.2:
+                # abandoned traversal with no mutation around it
+                events.append({"op": "iter_cancel", "it": it, "how": frng.choice(["close", "throw", "drop"]), "c": "F"})
+                del live[it]
             else:
                 events.append({"op": "iter_next", "it": it, "n": wrng.randint(1, 3), "c": it})
     for it in sorted(live):
@@ -238,6 +247,7 @@ class Run(object):
         self.model = {}
         self.iters = {}
         self.universe = all_keys(config["alphabet"], config["depth"] + 1)
+        self.sweeps = 0
 
     # -- comparison helpers ---------------------------------------------------
     def fail(self, invariant, op, got, expected, detail=None):
@@ -316,18 +326,26 @@ class Run(object):
             return t.values()
         return iter(t)
 
-    def sweep(self, op):
+    def sweep(self, op, force=False):
+        sw = self.cfg.get("sweep") or {}
+        stride = 1 if force else sw.get("stride", 1)
+        do_iter = force or sw.get("iter", True)
+        self.sweeps += 1
+        off = self.sweeps % stride
         forms = ("list", "tuple", "gen")
         n = 0
         for key in self.universe:
-            form = forms[n % 3]
             n += 1
+            if n % stride != off:
+                continue
+            form = forms[n % 3]
             self.q_get(key, form, op)
             self.q_getitem(key, forms[(n + 1) % 3], op)
             self.q_lmpv(key, forms[(n + 2) % 3], op)
         self.q_len(op)
-        for kind in ITER_KINDS:
-            self.judge_iteration(kind, list(self.open_iter(kind)), op)
+        if do_iter:
+            for kind in ITER_KINDS:
+                self.judge_iteration(kind, list(self.open_iter(kind)), op)
         self.stats.state(state_text(self.model), nontrivial=bool(self.model))
 
     # -- one event ----------------------------------------------------------------
@@ -445,6 +463,8 @@ class Run(object):
                 return
             if ev["how"] == "close":
                 rec["gen"].close()
+            elif ev["how"] == "drop":
+                rec["gen"] = None  # the caller just stops iterating
             else:
                 try:
                     rec["gen"].throw(SimCancel())
@@ -454,7 +474,7 @@ class Run(object):
             stats.probe("iter_cancelled")
             stats.event("%s|iter_cancel|%s|%d" % (ev["it"], ev["how"], len(rec["got"])))
             # the container must be unaffected by an abandoned traversal
-            self.sweep("iter_cancel")
+            self.sweep("iter_cancel", force=True)
         else:
             raise HarnessError("unknown event %r" % (ev,))
 
@@ -463,7 +483,7 @@ def execute(case, stats, known):
     run = Run(case["config"], stats, known)
     for ev in case["events"]:
         run.step(ev)
-    run.sweep("end")
+    run.sweep("end", force=True)
 
 
 # -----------------------------------------------------------------------------
@@ -502,6 +522,10 @@ def shrink_event(config, ev):
 def shrink_config(case):
     cfg = case["config"]
     out = []
+    if cfg.get("sweep") not in (None, {"iter": True, "stride": 1}):
+        c = dict(cfg)
+        c["sweep"] = {"iter": True, "stride": 1}
+        out.append({"config": c, "events": case["events"]})
     if cfg["depth"] > 1:
         c = dict(cfg)
         c["depth"] = cfg["depth"] - 1
